@@ -3,6 +3,7 @@ package main
 // Calls: builtins, contracts at call sites, at-call clauses, havoc.
 
 import (
+	"os"
 	"fmt"
 	"go/types"
 	"math/big"
@@ -243,6 +244,14 @@ afterPublish:
 		if fv := e.valOf(cc.Value); fv.Sort == "Fn" {
 			e.safetyOb(st, "nil", in, "call "+cc.Value.Name(), not(eq(e.term(fv), "nil_fn")))
 		}
+		// a value of a named function type may carry a contract ("iface <pkg>.<Type>.call")
+		if fc = e.funcTypeContract(cc); fc != nil {
+			sig = cc.Signature()
+			for i := 0; i < sig.Params().Len(); i++ {
+				pnames = append(pnames, sig.Params().At(i).Name())
+			}
+			pvals = args
+		}
 	}
 	// variadic with fewer names than values cannot happen in SSA (packed into a slice)
 
@@ -351,7 +360,13 @@ afterPublish:
 			} else {
 				e.havocHeap(st)
 			}
-			e.havocLeaked(st)
+			if fc != nil && len(fc.Modifies) > 0 && onlyElemsOrMaps(fc.Modifies) {
+				// the callee writes only slice elements / map entries: scalar and struct locals whose address
+				// escaped keep their value; local arrays (element storage) do not
+				e.havocLeakedArrays(st)
+			} else {
+				e.havocLeaked(st)
+			}
 			if !(fc != nil && fc.PreservesArgs) {
 				e.havocSet(st, reach)
 			}
@@ -392,6 +407,85 @@ afterPublish:
 			}
 			e.fact(implies(st.reach, g))
 		}
+	}
+	e.afterCall(st, in, name)
+}
+
+// afterCall implements the proof rule for a higher-order callee that runs function literals of this function
+// (e.g. fs.WalkDir with a callback):
+//
+//	after-call PAT invariant E
+//
+// lets E (over variables of this function captured by its literals) be assumed right after the call, because
+//   - E holds at the call: this function has "at-call PAT requires E" (an obligation),
+//   - every function literal of this function assumes E on entry and is obliged to re-establish it on every
+//     return ("requires E" and "ensures E" in its contract),
+//   - the captured variables are private to the function and its literals, so the callee can change them only by
+//     running the literals.
+//
+// The rule is applied only when these clauses are present with the same expression text; otherwise the clause is
+// reported as not applicable (undecided), never silently assumed.
+func (e *FEnc) afterCall(st *State, in ssa.Instruction, name string) {
+	if os.Getenv("GOVC_DEBUG") != "" && e.fc != nil {
+		fmt.Fprintln(os.Stderr, "afterCall", e.fn.Name(), name, len(e.fc.Clauses))
+	}
+	if e.fc == nil {
+		return
+	}
+	for _, c := range e.fc.Clauses {
+		if c.Kind != "aftercall" || !matchPat(c.Pat, name) {
+			continue
+		}
+		want := c.Expr.String()
+		okPre := false
+		for _, d := range e.fc.Clauses {
+			if d.Kind == "atcall" && d.Pat == c.Pat && d.When == nil && d.Expr.String() == want {
+				okPre = true
+			}
+		}
+		why := ""
+		if !okPre {
+			why = "no matching 'at-call " + c.Pat + " requires' clause"
+		}
+		var lits []*ssa.Function
+		var collect func(f *ssa.Function)
+		collect = func(f *ssa.Function) {
+			for _, a := range f.AnonFuncs {
+				lits = append(lits, a)
+				collect(a)
+			}
+		}
+		collect(e.fn)
+		for _, lf := range lits {
+			lfc := e.eng.contractOf(lf)
+			req, ens := false, false
+			if lfc != nil {
+				for _, d := range lfc.Clauses {
+					if d.Kind == "requires" && d.Expr.String() == want {
+						req = true
+					}
+					if d.Kind == "ensures" && d.Expr.String() == want {
+						ens = true
+					}
+				}
+			}
+			if !req || !ens {
+				why = "function literal " + lf.Name() + " lacks 'requires'/'ensures' of the same invariant"
+			}
+		}
+		if why != "" {
+			e.unsupportedOnce(fmt.Sprintf("after-call %s invariant %q: rule not applicable: %s", c.Pat, c.Src, why))
+			continue
+		}
+		env := e.fnEnvAt(st, e.entry, in.Block(), e.curIdx)
+		env.lenient = true
+		g, err := e.evalBool(env, c.Expr)
+		if err != nil {
+			e.unsupportedOnce(fmt.Sprintf("after-call %s invariant %q: %v", c.Pat, c.Src, err))
+			continue
+		}
+		e.fact(implies(st.reach, g))
+		e.note("after-call rule applied at " + name + ": " + c.Src)
 	}
 }
 
@@ -595,6 +689,16 @@ func (e *FEnc) calleeContract(cc *ssa.CallCommon) *FuncContract {
 	if fn := cc.StaticCallee(); fn != nil {
 		return e.eng.contractOf(fn)
 	}
+	return e.funcTypeContract(cc)
+}
+
+func (e *FEnc) funcTypeContract(cc *ssa.CallCommon) *FuncContract {
+	if cc.IsInvoke() || cc.StaticCallee() != nil {
+		return nil
+	}
+	if n := namedOf(cc.Value.Type()); n != nil && n.Obj().Pkg() != nil {
+		return e.eng.contractByKey("iface:" + n.Obj().Pkg().Path() + "." + n.Obj().Name() + ".call")
+	}
 	return nil
 }
 
@@ -626,4 +730,25 @@ func (e *FEnc) expandVariadic(st *State, sig *types.Signature, vals []*Val) (str
 		return fmt.Sprintf("_v%d", at.Len()), out, true
 	}
 	return "", nil, false
+}
+
+func onlyElemsOrMaps(ms []string) bool {
+	for _, m := range ms {
+		if m != "elems" && m != "maps" {
+			return false
+		}
+	}
+	return true
+}
+
+func (e *FEnc) havocLeakedArrays(st *State) {
+	for _, id := range sortedInts(st.cells) {
+		a := e.allocs[id]
+		if !st.leaked[id] || a.Weak || a.Ty == nil {
+			continue
+		}
+		if _, isArr := a.Ty.Underlying().(*types.Array); isArr {
+			st.cells[id] = e.newVal(a.Ty, fmt.Sprintf("hv_%s", mangle(a.Name)))
+		}
+	}
 }
